@@ -26,6 +26,7 @@ EXPLANATION = (
     " Second session: the matching loop of _get_valid_context is evaluated for one candidate over the finite space of what it can look at (requested syntax absent / same / different x is_compressed, is_little_endian, is_deflated, is_implicit_VR of both: 288 points) and compared with the conversion rule; role-source borrows C11's every-context / normalisation rules."
     " Fifth round: (role-source) borrows C11's iteration-independent evaluation; (message-direction) borrowed from C20."
     ' Fifth round (end): (scp-side) a helper that is handed the transfer syntax is checked at its callers.'
+    " Sixth round: (same-byte-order) the declared-versus-actual encoding block of send_c_store is evaluated for all 16 combinations; (role-source) borrows C11's setter evaluation."
 )
 
 UPS_EXPECTED = {"UnifiedProcedureStepPull", "UnifiedProcedureStepWatch", "UnifiedProcedureStepEvent", "UnifiedProcedureStepQuery"}
